@@ -32,8 +32,8 @@ LEVEL_NOTE = ('Potential values come from a finite alphabet of six value classes
 ASSUMPTIONS = ['precondition: at least one joint cell has a finite potential sum (cases violating it are skipped and counted)',
                'comparison tolerance rtol 1e-7, atol 1e-9*total']
 
-VCLASSES_QUICK = ['generic', 'x1000', 'shift', 'neginf-cell', 'compensated']
-VCLASSES_ALL = ['generic', 'x1000', 'shift', 'neginf-cell', 'neginf-slice', 'single-live', 'compensated']
+VCLASSES_QUICK = ['generic', 'x1000', 'shift', 'neginf-cell', 'compensated', 'neginf-shift']
+VCLASSES_ALL = ['generic', 'x1000', 'shift', 'neginf-cell', 'neginf-slice', 'single-live', 'compensated', 'neginf-shift']
 TOTALS = [1.0, 0.5, 100.0]
 
 
@@ -95,7 +95,7 @@ def input_potentials(attrs, sizes, cliques, vclass, rngseed):
     out = []
     for i, (c, a) in enumerate(base):
         a = a.copy()
-        if vclass == 'neginf-cell':
+        if vclass in ('neginf-cell', 'neginf-shift'):
             flat = a.reshape(-1)
             flat[(i * 5 + 1) % flat.size] = -np.inf
         elif vclass == 'neginf-slice':
@@ -109,6 +109,9 @@ def input_potentials(attrs, sizes, cliques, vclass, rngseed):
             a[...] = -np.inf
             a.reshape(-1)[0] = keep
         out.append((c, a))
+    if vclass == 'neginf-shift':
+        # structural zeros together with constants of -5000 / +3000 per potential: the zero cells stay zero, the rest is unchanged
+        return [(c, a + (-5000.0 if i % 2 == 0 else 3000.0)) for i, (c, a) in enumerate(out)], out
     return out, None
 
 
